@@ -308,6 +308,39 @@ def run(seed, tier, driver):
                 continue
             if io != mo:
                 res.disagree(name, {'hex': b.hex()}, io, mo)
+    # PMSI tunnel decoder (Model/Pmsi.lean; theorems C11_pmsi_* say exactly when it raises): every length 0..7 with edge
+    # octets, every tunnel type, identifiers of 0, 1, 4, 5, 16, 17 octets around 2^32 and 2^128, both label readings
+    import impl_construct as IC
+    pm = []
+    edge = [0, 1, 6, 7, 15, 16, 127, 128, 255]
+    for n in range(0, 8):
+        for _ in range(12):
+            pm.append(bytes(r.choice(edge) for _ in range(n)))
+    for ty in range(0, 256):
+        pm.append(bytes([r.choice(edge), ty]) + bytes(r.randrange(256) for _ in range(3)) + bytes(r.randrange(256) for _ in range(r.choice([0, 4, 16]))))
+    ids = [b'', b'\x00', b'\x00' * 4, b'\xff' * 4, b'\x01' + b'\x00' * 4, b'\x00' * 16, b'\x00' * 15 + b'\x01', b'\x00' * 12 + b'\xff' * 4,
+           b'\x00' * 11 + b'\x01' + b'\x00' * 4, b'\xff' * 16, b'\x01' + b'\x00' * 16, b'\x00' + b'\xff' * 16, b'\x00' * 40 + b'\x07']
+    for t in ids + [bytes(r.randrange(256) for _ in range(r.choice([3, 4, 5, 15, 16, 17, 20]))) for _ in range(60 if tier == 'quick' else 600)]:
+        for lab in (b'\x00\x00\x00', b'\x00\x01\x01', b'\xff\xff\xff', bytes(r.randrange(256) for _ in range(3))):
+            pm.append(bytes([r.choice([0, 1, 255]), 6]) + lab + t)
+    preqs, pios = [], []
+    for b in pm:
+        for ev in (False, True):
+            io = IC.pmsi_parse(b, ev)
+            res.stats.case(('PMSITunnel.parse', ev, b.hex()), nontrivial=len(b) >= 5, sample=None)
+            res.stats.hit('decoder_PMSITunnel.parse')
+            res.stats.hit('pmsi_' + ('raise' if 'raise' in io else 'hang' if 'hang' in io else 'type6' if io['type'] == 6 else 'other'))
+            if 'hang' in io:
+                res.fail('C11', 'PMSITunnel.parse did not finish within the CPU budget', {'decoder': 'PMSITunnel.parse', 'hex': b.hex()}, key='hang')
+            preqs.append({'op': 'c11.pmsi.parse', 'evpn': ev, 'hex': b.hex()})
+            pios.append(io)
+    pres = driver.batch(preqs)
+    for q, io, mo in zip(preqs, pios, pres):
+        if 'error' in mo:
+            res.stats.skipped += 1
+            continue
+        if io != mo:
+            res.disagree('PMSITunnel.parse', q, io, mo)
     return res
 
 
